@@ -1514,6 +1514,8 @@ class Interp:
                 else:
                     for c1, kv in self.ev(k, c, out):
                         for c2, vv in self.ev(v, c1, out):
+                            if isinstance(v, ast.Name) and isinstance(vv, ListV) and vv.kind in ("list", "set") and vv.origin is None and v.id in c2.env:
+                                vv = ListV(vv.items, vv.kind, ("$var", v.id))  # the table holds the very list/set the local names
                             nxt.append((c2, items + [(kv, vv)], pend + [kv] if self.emit_hash else pend))
             cur = nxt
         res = []
@@ -2305,7 +2307,10 @@ class Interp:
             if org is not None and isinstance(newv, ListV) and isinstance(org, tuple):
                 # an element of a heap dictionary held in a local: the dictionary's element changes with it
                 slot, key = org
-                if slot == "$slot":
+                if slot == "$var":
+                    if key in c.env and isinstance(c.env[key], ListV):
+                        c = c.set(key, ListV(newv.items, newv.kind, c.env[key].origin))  # the local the alias was taken from
+                elif slot == "$slot":
                     c = c.hset(key, ListV(newv.items, newv.kind))  # the attribute the local is an alias of
                 else:
                     holder = c.heap.get(slot)
@@ -2404,7 +2409,7 @@ class Interp:
                 for k, v in kwargs.items():
                     d = d.set(Const(k), v)
                 return rebind(d)
-            if meth == "pop" and args and isinstance(args[0], Const):
+            if meth == "pop" and args and (isinstance(args[0], Const) or (isinstance(args[0], (ObjV, ClassV)) and all(isinstance(k, (Const, ObjV, ClassV)) for k, _ in base.items))):
                 v = base.get(args[0])
                 nd = DictV([(k, x) for k, x in base.items if k != args[0]], base.origin)
                 if v is not None:
